@@ -157,13 +157,15 @@ def build_model():
         src = open(os.path.join(ex, 'Extract.v')).read()
         mods = re.findall(r'From Mx Require (?:Import )?([\w ]+)\.', src)
         tg = ['theories/%s.vo' % m for ms in mods for m in ms.split()]
+        gmods = re.findall(r'From MxGen Require (?:Import )?([\w ]+)\.', src)
+        tg += ['gen/%s.vo' % m for ms in gmods for m in ms.split()]
         rc, out = coq_make(tg)
         if rc != 0: raise BuildBroken('coq build of model theories', out)
         deps = [os.path.join(COQ, t) for t in tg] + [os.path.join(ex, f) for f in ('Extract.v', 'driver.ml', 'zio.ml', 'sexp.ml')]
         exe = os.path.join(ex, 'mxmodel')
         if os.path.exists(exe) and all(os.path.getmtime(d) <= os.path.getmtime(exe) for d in deps):
             return exe
-        rc, out = sh(['coqc', '-Q', '../theories', 'Mx', 'Extract.v'], cwd=ex, timeout=600)
+        rc, out = sh(['coqc', '-Q', '../theories', 'Mx', '-Q', '../gen', 'MxGen', 'Extract.v'], cwd=ex, timeout=600)
         if rc != 0: raise BuildBroken('extraction', out)
         rc, out = sh('ocamlfind ocamlopt -w -a -package str model.mli model.ml zio.ml sexp.ml driver.ml -o mxmodel', cwd=ex, timeout=600)
         if rc != 0 or not os.path.exists(exe): raise BuildBroken('ocaml build', out)
@@ -291,7 +293,17 @@ class Check:
         m = re.search(r'File "([^"]+)", line (\d+)', e.log)
         return dict(broken=e.what, where=(m.group(0) if m else None), log_tail=tail)
 
-    def finish(self, level='proof', assumptions=None, extra=None):
+    def finish(self, level=None, assumptions=None, extra=None):
+        if level is None:
+            level = 'proof'
+            try:
+                for c in json.load(open(os.path.join(ROOT, 'MANIFEST.json')))['checks']:
+                    if c['property_id'] == self.pid: level = c['level_claimed']['category']
+            except Exception:
+                pass
+        if level == 'other' and 'explanation' not in self.cov:
+            self.cov['explanation'] = ('model-to-code correspondence + property search; kernel-checked obligations counted in obligations/discharged '
+                                       'do not yet include the universal theorem for this property')
         ev = dict(property_id=self.pid, tier=self.tier, seed=self.seed, level=level, coverage=self.cov,
                   assumptions=assumptions or [], wall_s=round(time.time() - self.t0, 2),
                   violations=len(self.violations), known_findings_reported=self.known)
